@@ -15,6 +15,7 @@ import (
 	"dsim"
 	"dsim/fault"
 	"dsim/runner"
+	"dsim/simsync"
 
 	"github.com/anjor/carlet"
 	"github.com/ipfs/go-cid"
@@ -64,7 +65,10 @@ func c16parse(b []byte) (headerLen int, header []byte, secs []c16section, err er
 
 func scenarioC16S(x *runner.X) {
 	t := x.Tape
-	engineKnobs(nil)
+	// the accumulator's per-block buffer size is a preallocation hint: small values put blocks with
+	// more objects than the hint within reach of small worlds
+	capKnob := t.Pick(5000, 2, 4, 16)
+	engineKnobs(map[string]int{"accum.objectCap": capKnob})
 	p := world.Params{Epoch: uint64(t.Pick(3, 0, 120)), Salt: 1600 + uint64(t.Intn(4)), NumBlocks: t.Range(1, 9), MaxEntries: t.Range(1, 3), MaxTxPerEntry: t.Range(0, 3), NumAccounts: 8, MaxFrameBytes: t.Pick(200, 60, 1000), SkipProb: 0.4}
 	if p.MaxTxPerEntry == 0 {
 		p.MaxTxPerEntry = -1
@@ -106,7 +110,7 @@ func scenarioC16S(x *runner.X) {
 		size = int64(pieceHdr + total + t.Range(0, 1000))
 	}
 	disk := t.Bool(0.3)
-	x.Digest(w.Describe(), size, disk)
+	x.Digest(w.Describe(), size, disk, capKnob)
 	x.Note("world", w.Describe())
 	x.Note("target_size", size)
 	x.Note("disk_faults", disk)
@@ -329,9 +333,22 @@ func scenarioC16S(x *runner.X) {
 		fail("the pieces together do not hold every block of the original exactly once", "groups written %d of %d; %d of %d bytes", gi, len(groups), content.Len(), total)
 		return
 	}
-	// the real reader over the written pieces gives back the original bytes
+	// the real reader over the written pieces gives back the original bytes, also to several
+	// readers at once (the server shares one reader between all requests of an epoch)
 	var rdErr error
 	var got []byte
+	nReaders := t.Range(1, 3)
+	type probe struct{ off, n int }
+	probes := make([][]probe, nReaders)
+	pr := t.SubRand()
+	for g := range probes {
+		for k := 0; k < 12; k++ {
+			off := pr.Intn(contentEnd)
+			n := 1 + pr.Intn(mini(contentEnd-off, 600))
+			probes[g] = append(probes[g], probe{off, n})
+		}
+	}
+	wrong := ""
 	x.Sim(runner.SimOpts{Phase: "read-back", Cfg: dsim.Config{MaxSteps: 50000000, MaxSimTime: 100 * time.Hour, NoTimerRace: true}}, func() {
 		rd, err := splitcarfetcher.NewSplitCarReader(md.CarPieces, func(f carlet.CarFile) (splitcarfetcher.ReaderAtCloserSize, error) {
 			return splitcarfetcher.NewFileSplitCarReader(f.Name)
@@ -341,6 +358,25 @@ func scenarioC16S(x *runner.X) {
 			return
 		}
 		defer rd.Close()
+		var wg simsync.WaitGroup
+		for g := 0; g < nReaders; g++ {
+			g := g
+			wg.Add(1)
+			dsim.Go(fmt.Sprintf("reader%d", g), func() {
+				defer wg.Done()
+				for _, q := range probes[g] {
+					buf := make([]byte, q.n)
+					n, err := rd.ReadAt(buf, int64(q.off))
+					if (err != nil && err != io.EOF) || n != q.n || !bytes.Equal(buf, w.CAR[q.off:q.off+q.n]) {
+						if wrong == "" {
+							wrong = fmt.Sprintf("ReadAt(%d bytes at %d) with %d concurrent readers: n=%d err=%v, bytes equal: %v", q.n, q.off, nReaders, n, err, bytes.Equal(buf[:n], w.CAR[q.off:q.off+n]))
+						}
+						return
+					}
+				}
+			})
+		}
+		wg.Wait()
 		got = make([]byte, contentEnd)
 		if _, err := rd.ReadAt(got, 0); err != nil && err != io.EOF {
 			rdErr = err
@@ -349,6 +385,10 @@ func scenarioC16S(x *runner.X) {
 			s.Quiesce()
 		}
 	})
+	if wrong != "" {
+		fail("a read through the split-CAR reader over the written pieces returns wrong bytes", "%s", wrong)
+		return
+	}
 	if rdErr != nil || !bytes.Equal(got, w.CAR[:contentEnd]) {
 		fail("the split-CAR reader over the written pieces does not reproduce the original CAR", "%v; %d bytes", rdErr, len(got))
 		return
